@@ -3,13 +3,15 @@ CONSTANTS XKinds = {"pdep"}
           YKinds = {"lit"}
           Aliases = {"none","neg"}
           Delays = {"none","lit","par","par_lit","par_par2","sum"}
-          Opts = {"base","aliases","rcv","ev","eva","evb"}
+          Opts = {"base","aliases","rcv","ev","eva","evb","rpv"}
+          FKinds = {"none","lit","pdep"}
           Typed = {TRUE}
           Strs = {TRUE}
-          Outs = {TRUE,FALSE}
+          Outs = {TRUE}
           SwapDepClasses = FALSE
           ForgetOutputs = FALSE
           DurDepsOffByOne = FALSE
+          ConstMXNotMX = FALSE
           TruthyOptions = FALSE
 INIT Init
 NEXT Next
